@@ -75,7 +75,11 @@ func (c *Cluster) exec(s *Step) {
 	c.steps = append(c.steps, s)
 
 	if debugTrace {
-		fmt.Fprintf(os.Stderr, "step %d: %s\n", c.stepNo, s.String())
+		sp := 0
+		for _, n := range c.nodes {
+			sp += n.storePoints
+		}
+		fmt.Fprintf(os.Stderr, "step %d: %s (store points so far %d)\n", c.stepNo, s.String(), sp)
 	}
 	c.net.deliverLate()
 	c.resumeDue()
